@@ -52,6 +52,12 @@ def gen_failed_start(r, tier):
     for sp in ([60] if tier == "quick" else [0, 1, 60, 200]):
         ops += ["#case failed-start", "su.open parallel=1", f"su.fan fan=f1 kind=hwmon hasrpm=0 startpwm={sp}",
                 "su.start fan=f1", "su.dev fan=f1"]
+    # cancellation in the window between "start-up took the fan over" (PWM sweep because no map is stored) and the
+    # first regulation cycle: the controller must still restore the fan
+    for sp in ([60] if tier == "quick" else [1, 60, 120, 254]):
+        for kind in ("hwmon",):
+            ops += ["#case cancel-window", "su.open parallel=1", f"su.fan fan=f1 kind={kind} startpwm={sp}",
+                    "su.start fan=f1", "su.delmap fan=f1", "su.startcancel fan=f1"]
     return ops
 
 
@@ -80,6 +86,10 @@ class C03(Prop):
         if name == "failed-start":
             for cops, cgo in cases(ops, go):
                 g = kv(cgo[-1])
+                if cops[0].startswith("#case cancel-window"):
+                    if g.get("swept") == "1" and not (int(g["mode"]) == 2 or int(g["pwm"]) == 255):
+                        out.append(viol(f"controller cancelled after taking the fan over but before its first cycle left it in mode {g['mode']} at PWM {g['pwm']}", cops, cgo))
+                    continue
                 res = kv(cgo[-2]).get("res")
                 if res == "err" and not (int(g["mode"]) == 2 or int(g["pwm"]) == 255):
                     out.append(viol(f"start-up failed and left the fan in mode {g['mode']} at PWM {g['pwm']}", cops, cgo))
